@@ -48,9 +48,11 @@ CLAIM = dict(
     "LEAN FORM (decide over a table re-tabulated from the running code on a 2x2 grid on every run, i.e. an exhaustive observation of the "
     "dispatch, not a theorem about the source): documented_formulations_usable, pressure_all_backends, flux_reduced_all_backends_run, "
     "accepted_spellings_handled. TIED BY CORRESPONDENCE: block assembly = darcy_init (exact), reduced / fully reduced matrices (exact on "
-    "dyadic weights), exact rational model solution vs every usable formulation x back-end incl. matrices whose divergence blocks differ "
+    "dyadic weights), the cached-solver state machine (SolverCache: reuse_sound, stale_iff, reuse_after_matrix_change_is_stale, "
+    "pressure_cg_never_stale, cache_refines_WObj of C16) against instrumented call sequences on live objects (set-up events, which inner "
+    "system each call solves), exact rational model solution vs every usable formulation x back-end incl. matrices whose divergence blocks differ "
     "from the cache, CSC arrays + patternOk on C07-range shapes (all 186 in the thorough tier, 54 in quick). ORACLE ONLY (no model): "
-    "reuse of the cached solver across successive systems and inside Bregman runs with a regularisation schedule, caller-held rhs/matrix "
+    "Bregman runs with a regularisation schedule, caller-held rhs/matrix "
     "unchanged, same right-hand side kind at magnitudes 2^-40 .. 2^20, end-to-end distances; residuals in exact Fraction arithmetic "
     "against the original full system with an a-posteriori bound.",
     note="KNOWN FINDINGS (reported, exit 0): formulation 'flux_reduced'/'flux-reduced' with linear_solver 'amg'/'cg' does not solve the full "
@@ -698,6 +700,99 @@ def schedule_oracle(ctx, d, usable, shape, L, every, num_iter, scale=1.0):
         ctx.cov.setdefault("schedule_distance_spread", []).append(max(vals.values()) - min(vals.values()))
 
 
+def sps_diags(v):
+    import scipy.sparse as sps
+
+    return sps.diags(v)
+
+
+def cache_correspondence(ctx, d, usable):
+    """instrumented call sequences on ONE live solver object per formulation x back-end: three different matrices, random
+    reuse flags. Observed per call: whether a `setup_*_solver` ran (wrapped attribute) and WHICH of the three matrices the
+    returned vector solves the system of (smallest exact... float residual against each candidate); compared with
+    `DarsiaModel.SolverCache.run` (state machine of the cached solver)."""
+    model_form = {"full": "full", "flux_reduced": "flux_reduced", "flux-reduced": "flux_reduced", "pressure": "pressure"}
+    lines, impl = [], []
+    shape = (3, 4)
+    for (f, s_), ok in usable.items():
+        if not ok:
+            continue
+        for trial in range(ctx.pick(2, 6)):
+            opts = {}
+            if s_ in ("amg", "cg"):
+                opts["linear_solver_options"] = {"rtol": 1e-11, "atol": 1e-11 if s_ == "amg" else 0.0, "maxiter": 1000}
+            w = call(make_solver, d, shape, f, s_, **opts)
+            if isinstance(w, Raised):
+                continue
+            nf, nc = int(w.grid.num_faces), int(w.grid.num_cells)
+            Ws = [random_weights(ctx.rng, nf) for _ in range(3)]
+            mats = [full_matrix(w, W) for W in Ws]
+            n_setup = [0]
+            attr = {"direct": "setup_direct_solver", "amg": "setup_amg_solver", "cg": "setup_cg_solver"}[s_]
+            inner = getattr(w, attr)
+
+            def counted(*a, _inner=inner, **k):
+                n_setup[0] += 1
+                return _inner(*a, **k)
+
+            setattr(w, attr, counted)
+            seq = [(0, False)] + [(ctx.rng.randrange(3), ctx.rng.random() < 0.6) for _ in range(ctx.pick(4, 7))]
+            obs = []
+            for mi, reuse in seq:
+                rhs = random_rhs(ctx.rng, nf, nc)
+                before = n_setup[0]
+                r = call(w.linear_solve, mats[mi], rhs, None, reuse)
+                if isinstance(r, Raised):
+                    obs.append(repr(r))
+                    break
+                x = np.asarray(r[0], dtype=float)
+                # the INNER system of the formulation (what the cached solver is applied to): full matrix / Schur system in
+                # (p, lam) / pinned Schur system; its right-hand side always belongs to the current call
+                k = int(w.constrained_cell_flat_index)
+                g, fsrc = rhs[:nf], rhs[nf:-1]
+                Dm = w.div
+                rr = fsrc - Dm @ (g / Ws[mi])
+                res = []
+                for Wj, M in zip(Ws, mats):
+                    if not np.all(np.isfinite(x)):
+                        res.append(float("inf"))
+                    elif model_form[f] == "full":
+                        res.append(float(np.linalg.norm(M @ x - rhs)))
+                    else:
+                        S = (Dm @ sps_diags(1.0 / Wj) @ Dm.T).toarray()
+                        p_, lam = x[nf:-1], x[-1]
+                        if model_form[f] == "flux_reduced":
+                            r1 = S @ p_ - rr
+                            r1[k] -= lam
+                            res.append(float(np.linalg.norm(np.concatenate([r1, [p_[k] - rhs[-1]]]))))
+                        else:
+                            keep = [c for c in range(nc) if c != k]
+                            res.append(float(np.linalg.norm(S[np.ix_(keep, keep)] @ p_[keep] - rr[keep])))
+                best = int(np.argmin(res))
+                good = res[best] <= 1e-6 * max(float(np.linalg.norm(rhs)), 1e-300)
+                # equal candidates are told apart by construction (random weights): the runner-up must be far worse
+                others = [v for i, v in enumerate(res) if i != best]
+                if not good or min(others) <= 1e3 * max(res[best], 1e-300):
+                    obs.append(f"? {int(n_setup[0] > before)}")
+                else:
+                    obs.append(f"{best + 1} {int(n_setup[0] > before)}")
+            lines.append(f"cache {model_form[f]} {s_} {len(seq)} " + " ".join(f"{mi + 1} {int(reuse)}" for mi, reuse in seq))
+            impl.append(" ; ".join(obs))
+    got = ctx.model(lines)
+    # the model also reports the matrix of the preconditioner (not observable from outside): compare used + setup only
+    trimmed = [" ; ".join(" ".join(part.split()[:2]) for part in g.split(";")) if not g.startswith("!") else g for g in got]
+    diffs = [i for i, (a, b) in enumerate(zip(trimmed, impl)) if a.strip() != b.strip()]
+    for l in lines:
+        ctx.count(("cache", l))
+    ctx.cov.setdefault("correspondence", {})["cached solver: which system is solved / set-up events vs SolverCache.run"] = {
+        "cases": len(lines), "disagreements": len(diffs)}
+    if diffs:
+        i = diffs[0]
+        ctx.mark("CORR-BROKEN", {"correspondence": "cached solver state machine", "request": lines[i], "model": trimmed[i], "impl": impl[i],
+                                 "n_diffs": len(diffs)})
+        ctx.log(f"correspondence cached-solver: {len(diffs)} disagreements, e.g. {lines[i]} model={trimmed[i]} impl={impl[i]}")
+
+
 def oracle(ctx, d, voc, construct, accept):
     # (1) dispatch: every documented formulation is usable; no accepted spelling falls through
     for f in voc["documented_f"]:
@@ -768,6 +863,7 @@ def run(ctx):
         must = [(n,) for n in range(1, 13)] + [(a, b) for a in range(1, 5) for b in range(1, 5)] + \
                [(a, b, c) for a in range(1, 4) for b in range(1, 3) for c in range(1, 3)] + [(7, 7), (5, 5, 5), (1, 7), (5, 1, 5)]
         shapes = must + [ctx.rng.choice(allshapes) for _ in range(10)]
+    cache_correspondence(ctx, d, usable)
     surgery_correspondence(ctx, d, shapes)
     small = [(1,), (2,), (5,), (1, 1), (2, 2), (1, 3), (3, 2), (2, 1, 2), (2, 2, 2)]
     assembly_correspondence(ctx, d, small + [ctx.rng.choice([s for s in allshapes if np.prod(s) <= 30]) for _ in range(ctx.pick(4, 30))])
